@@ -219,6 +219,57 @@ func runPipe(c *PipeCell, ks *sut.KeySet, workRoot string) (res PipeResult) {
 	}) {
 		return
 	}
+	// (g) content survives metadata-only records and a rename (the index keeps the content's position)
+	if !guard("meta-then-read", func() error {
+		if err := inst.FS.Chmod(p, 0o600); err != nil {
+			return fmt.Errorf("chmod: %w", err)
+		}
+		if err := expect(inst, p, content, "after chmod"); err != nil {
+			return err
+		}
+		if err := inst.FS.Rename(p, p+".moved"); err != nil {
+			return fmt.Errorf("rename: %w", err)
+		}
+		if err := expect(inst, p+".moved", content, "after rename"); err != nil {
+			return err
+		}
+		if err := inst.FS.Rename(p+".moved", p); err != nil {
+			return fmt.Errorf("rename back: %w", err)
+		}
+		return expect(inst, p, content, "after renaming back")
+	}) {
+		return
+	}
+	// (h) shrink, then grow through one handle: the grown part reads as zeros in every cache / pipeline
+	if len(content) >= 8 {
+		if !guard("shrink-grow", func() error {
+			f, err := inst.FS.OpenFile(p, os.O_RDWR|os.O_TRUNC, 0)
+			if err != nil {
+				return fmt.Errorf("open O_TRUNC: %w", err)
+			}
+			head := content[:4]
+			if _, err := f.Write(head); err != nil {
+				return fmt.Errorf("write: %w", err)
+			}
+			if err := f.Truncate(int64(len(content))); err != nil {
+				return fmt.Errorf("truncate (grow): %w", err)
+			}
+			if err := f.Close(); err != nil {
+				return fmt.Errorf("close: %w", err)
+			}
+			want := make([]byte, len(content))
+			copy(want, head)
+			if err := expect(inst, p, want, "after O_TRUNC + write + Truncate(grow)"); err != nil {
+				return err
+			}
+			if err := writeVia(inst, p, content); err != nil {
+				return err
+			}
+			return expect(inst, p, content, "rewritten after shrink/grow")
+		}) {
+			return
+		}
+	}
 	// (f') a member archived with its content in one step (CREATE record with data)
 	if !guard("archive-with-content", func() error {
 		src := filepath.Join(dir, "src.bin")
